@@ -634,6 +634,18 @@ class Fn:
             r = self.fresh()
             binds.append((r, "py_vstack %s" % t))
             return r, MAT2
+        if dotted == "np.arange" and len(node.args) == 1:
+            t, ty = self.expr(node.args[0], env, binds)
+            if ty != INT:
+                raise TranslateError("%s: np.arange(%s)" % (self.name, ty))
+            return "(map inject_Z (py_upto %s))" % t, ARR
+        if dotted == "np.abs" and len(node.args) == 1:
+            t, ty = self.expr(node.args[0], env, binds)
+            if ty == ARR:
+                return "(map Qabs %s)" % t, ARR
+            if ty in (INT, FLOAT):
+                return "(Qabs %s)" % self.coerce(t, ty, FLOAT), FLOAT
+            raise TranslateError("%s: np.abs(%s)" % (self.name, ty))
         if dotted == "np.cumsum" and len(node.args) == 1:
             t, ty = self.expr(node.args[0], env, binds)
             if ty != ARR:
@@ -1216,6 +1228,44 @@ def frag_window_dvalue_sq(fn):
     return [ast.fix_missing_locations(ast.Return(value=ren.visit(v.args[0])))]
 
 
+def _dtauint_stmt(fn):
+    import copy
+    loop = _ensemble_loop(fn)
+    hits = [st for st in loop.body if isinstance(st, ast.Assign) and len(st.targets) == 1
+            and _d(st.targets[0]).replace("Store()", "Load()") == _d(ast.parse("self.e_n_dtauint[e_name]", mode="eval").body)]
+    if len(hits) != 1:
+        raise TranslateError("gamma_method: e_n_dtauint[e_name] is not assigned exactly once in the ensemble loop")
+    zero = [st for st in loop.body if _d(st) == _d(ast.parse("self.e_n_dtauint[e_name][0] = 0.0").body[0])]
+    if len(zero) != 1:
+        raise TranslateError("gamma_method: e_n_dtauint[e_name][0] = 0.0 is missing")
+    v = copy.deepcopy(hits[0].value)
+    sq = [x for x in ast.walk(v) if isinstance(x, ast.Call) and _d(x.func) == _d(ast.parse("np.sqrt", mode="eval").body)]
+    if len(sq) != 1 or len(sq[0].args) != 1:
+        raise TranslateError("gamma_method: e_n_dtauint is not of the form <factor> * np.sqrt(<radicand>)")
+    return v, sq[0]
+
+
+def frag_dtauint_radicand(fn):
+    """the argument of the single np.sqrt in the formula of e_n_dtauint (hep-lat/0306017 eq. 42)"""
+    v, sq = _dtauint_stmt(fn)
+    ren = _Rename({"self.e_n_tauint[e_name]": "nt"})
+    return [ast.fix_missing_locations(ast.Return(value=ren.visit(sq.args[0])))]
+
+
+def frag_dtauint_factor(fn):
+    """the formula of e_n_dtauint with np.sqrt(..) replaced by 1: the factor in front of the square root"""
+    v, sq = _dtauint_stmt(fn)
+
+    class One(ast.NodeTransformer):
+        def visit_Call(self, node):
+            if node is sq:
+                return ast.Constant(value=1)
+            return self.generic_visit(node)
+    v = One().visit(v)
+    ren = _Rename({"self.e_n_tauint[e_name]": "nt"})
+    return [ast.fix_missing_locations(ast.Return(value=ren.visit(v)))]
+
+
 def frag_window_search(fn):
     """Obs.gamma_method: the automatic-windowing loop `for n in range(1, w_max): if g_w[n - 1] < 0 or n >= w_max - 1: ...; break`.
     The fragment is the search itself: which n the loop stops at (its body up to `break` is the bookkeeping of that n)."""
@@ -1367,6 +1417,10 @@ SIGS = [
          env={"names": OPTSTRLIST},
          aliases={'kwargs.get("means") is None and len(samples)': ("(v_no_means && negb (v_nsamples =? 0))", BOOL), "len(samples)": ("v_nsamples", INT),
                   "idl is not None": ("v_has_idl", BOOL), "len(idl)": ("v_len_idl", INT), "min(len(x) for x in samples)": ("v_minlen", INT)}),
+    dict(coq="gamma_method_dtauint_radicand", py="Obs.gamma_method", fragment=frag_dtauint_radicand, params=[], ret=ARR, numpy_div=True,
+         extra_params=[("v_nt", ARR), ("v_w_max", INT), ("v_e_N", INT)], env={"nt": ARR, "w_max": INT, "e_N": INT}),
+    dict(coq="gamma_method_dtauint_factor", py="Obs.gamma_method", fragment=frag_dtauint_factor, params=[], ret=ARR, numpy_div=True,
+         extra_params=[("v_nt", ARR), ("v_w_max", INT), ("v_e_N", INT)], env={"nt": ARR, "w_max": INT, "e_N": INT}),
     dict(coq="_reduce_deltas", py="_reduce_deltas", params=[("deltas", ARR), ("idx_old", IDL), ("idx_new", IDL)], ret=ARR),
     dict(coq="covariance_calc_gamma", py="_covariance_element.calc_gamma", needs=["_reduce_deltas"],
          params=[("deltas1", ARR), ("deltas2", ARR), ("idx1", IDL), ("idx2", IDL), ("new_idx", IDL)], ret=FLOAT),
@@ -1495,7 +1549,7 @@ def translate_source(src, sigs=None, only=None, sources=None):
     sigs = sigs or (SIGS + CORR_SIGS + SORT_SIGS)
 
     out = ["(* GENERATED by translate/t_pycore.py from pyerrors/obs.py -- do not edit *)",
-           "From Coq Require Import ZArith QArith List Bool.",
+           "From Coq Require Import ZArith QArith Qabs List Bool.",
            "From Coq Require Import String.", "From PV Require Import Base.QAux Obs.Model Py.Prim.",
            "Import ListNotations.", "Open Scope Z_scope.", ""]
     done = {}
